@@ -3,6 +3,7 @@ import CoercionModel.Model.Attempts
 import CoercionModel.Model.Skeletons
 import CoercionModel.Generated.F10
 import CoercionModel.Proofs.FixFull
+import CoercionModel.Proofs.Translated
 set_option linter.unusedSimpArgs false
 /-
   C09 — After a crash, durably finished work is never executed again.
@@ -112,5 +113,18 @@ theorem facts_skeleton :
     Generated.F10.fixSeq = Skeletons.fixSeq ∧
     Generated.F10.fixChecks = Skeletons.fixChecks := by
   decide
+
+/-! ### translated code (Generated/T1.lean is regenerated from recovery.go by harness/extract/t1.go on every run)
+
+  The hand-written model of the repair equals, function by function, the Lean definitions the translator
+  produces from the Go source: if `fixAction`, `resetAction`, `fixChecks` or `fixSeq` change, these
+  equalities are re-checked against what the code says now. -/
+
+theorem translated_resetAction (a : Action) : Generated.T1.resetAction a = Fix.resetAction a := Translated.resetAction_eq a
+/-- Go's `fixAction` (recursion: drop the last unended attempt, again) with fuel = number of attempts + 1 -/
+theorem translated_fixAction (a : Action) : Generated.T1.fixAction (a.attempts.length + 1) a = fixAction a := Translated.fixAction_eq' a
+theorem translated_fixChecks (o : Option Checks) : Generated.T1.fixChecksOpt o = o.map Fix.fixChecks := Translated.fixChecksOpt_eq o
+/-- Go's `fixSeq` (three loops with counters, `now` = time.Now()) is `fixSeqFull`, hence `fixSeq` whenever nothing is Stopped -/
+theorem translated_fixSeq (now : Nat) (q : Sequence) : Generated.T1.fixSeq now q = Fix.fixSeqFull now q := Translated.fixSeq_eq now q
 
 end Coercion.C09
